@@ -64,6 +64,8 @@ type Scenario struct {
 	Ordered bool       `json:"ordered,omitempty"`
 	Calls   []Call     `json:"calls"`
 	Choices []string   `json:"choices,omitempty"` // recorded schedule (replay)
+	Polite  bool       `json:"polite,omitempty"`  // scheduling that stays out of the known check-then-act windows
+	Note    string     `json:"note,omitempty"`
 	Seed    int64      `json:"seed"`
 }
 
@@ -174,6 +176,9 @@ func (r *runState) enabled() []action {
 						hold = true
 					}
 				}
+				if hold && r.sc.Polite {
+					hold = false
+				}
 				if hold {
 					hold = r.pick2("hold", "elapse") == 0
 				}
@@ -247,6 +252,53 @@ func (r *runState) enabled() []action {
 		}})
 	}
 	return acts
+}
+
+// polite scheduling: stop executions and Run()'s spawn loop are atomic, API calls are sequential, and an
+// instance that is committed to launching (or to relaunching) does so before anybody else moves.
+func (r *runState) polite(acts []action) []action {
+	parked := r.s.Parked()
+	keep := func(pred func(p sched.ParkedInfo) bool) []action {
+		var res []action
+		for _, p := range parked {
+			if pred(p) {
+				for _, a := range acts {
+					if a.key == fmt.Sprintf("rel:%d", p.Th) {
+						res = append(res, a)
+					}
+				}
+			}
+		}
+		return res
+	}
+	stage := r.s.ThreadStages()
+	// 1. a thread inside a stop execution or inside Run()'s spawn loop runs to the end of it
+	if res := keep(func(p sched.ParkedInfo) bool {
+		return stage[p.Th] == "stop" || stage[p.Th] == "spawnloop" || stage[p.Th] == "shutdown" || p.Label == "ordered_go"
+	}); len(res) > 0 {
+		return res
+	}
+	// 2. committed instances launch first
+	if res := keep(func(p sched.ParkedInfo) bool {
+		switch p.Label {
+		case "started", "backoff_elapsed", "backoff_wait":
+			return true
+		case "run_checked", "restart_decision":
+			return r.s.LastArgTrue(p.Th) == (p.Label == "restart_decision")
+		}
+		return false
+	}); len(res) > 0 {
+		return res
+	}
+	// 3. API calls one after the other
+	var res []action
+	for _, a := range acts {
+		if strings.HasPrefix(a.key, "call:") && r.s.CallsInFlight() > 0 {
+			continue
+		}
+		res = append(res, a)
+	}
+	return res
 }
 
 func (r *runState) pick2(a, b string) int {
@@ -330,6 +382,9 @@ func runScenario(sc *Scenario, maxSteps int) *Result {
 			break
 		}
 		acts := r.enabled()
+		if sc.Polite {
+			acts = r.polite(acts)
+		}
 		if len(acts) == 0 {
 			break
 		}
@@ -386,6 +441,8 @@ func runScenario(sc *Scenario, maxSteps int) *Result {
 }
 
 // ---------------------------------------------------------------------------------------- generators
+
+var politePct = 60
 
 var conds = []string{"completed", "success", "healthy", "log_ready", "started"}
 var policies = []string{"no", "always", "on_failure", "exit_on_failure", ""}
@@ -452,6 +509,7 @@ func genScenario(rng *rand.Rand, id int, kind string) *Scenario {
 		}
 	}
 	sc.Ordered = rng.Intn(3) == 0
+	sc.Polite = rng.Intn(100) < politePct
 	sc.Calls = []Call{{Op: "run"}}
 	nm := func() string { return sc.Procs[rng.Intn(len(sc.Procs))].Name }
 	switch kind {
@@ -539,6 +597,8 @@ func eventsCoq(res *Result) []string {
 		switch e.Label {
 		case "spawn":
 			ev = fmt.Sprintf("ESpawn %s %s", coqN(e.Inst), coqN(nameID(sc, res.NameOf[e.Inst])))
+		case "new_inst":
+			ev = fmt.Sprintf("ENewInst %s %s", coqN(e.Inst), coqN(nameID(sc, res.NameOf[e.Inst])))
 		case "reg_add":
 			ev = fmt.Sprintf("ERegAdd %s %s", coqN(e.Inst), coqN(nameID(sc, res.NameOf[e.Inst])))
 		case "reg_del":
@@ -567,6 +627,12 @@ func eventsCoq(res *Result) []string {
 			ev = "ELaunch " + coqB(argBool(a[0]))
 		case "wait_return":
 			ev = "EWaitReturn " + coqZ(argInt(a[0]))
+		case "resume":
+			ev = "EResume"
+		case "exit_code":
+			ev = "EExitCode " + coqZ(argInt(a[0]))
+		case "lookup_mid":
+			ev = "ELookupMid " + coqN(nameID(sc, argStr(a[0])))
 		case "restart_decision":
 			ev = "ERestartDecision " + coqB(argBool(a[0]))
 		case "backoff_wait":
@@ -701,6 +767,7 @@ func main() {
 	par := flag.Int("par", 16, "parallel worker processes")
 	corpus := flag.String("corpus", "", "directory of scenario files that run first")
 	kinds := flag.String("kinds", "deps,single,api,shutdown", "scenario kinds to generate")
+	flag.IntVar(&politePct, "polite", 60, "percentage of scenarios scheduled politely (outside the known windows)")
 	flag.Parse()
 	zerolog.SetGlobalLevel(zerolog.Disabled)
 	if *one {
@@ -799,7 +866,10 @@ func main() {
 	}
 	sb.WriteString("].\n")
 	sb.WriteString("Definition r_rejected := Eval vm_compute in rejected cases.\nPrint r_rejected.\n")
-	sb.WriteString("Definition r_reject_pos := Eval vm_compute in reject_positions cases.\nPrint r_reject_pos.\n")
+	sb.WriteString("Definition r_windows := Eval vm_compute in window_codes cases.\nPrint r_windows.\n")
+	for _, p := range []string{"C01", "C02", "C03", "C04", "C05", "C08", "C09", "C12"} {
+		fmt.Fprintf(&sb, "Definition r_bad_%s := Eval vm_compute in bad_%s cases.\nPrint r_bad_%s.\n", p, p, p)
+	}
 	if err := os.WriteFile(filepath.Join(*out, "cases_SUP.v"), []byte(sb.String()), 0o644); err != nil {
 		panic(err)
 	}
@@ -817,6 +887,9 @@ func main() {
 		}
 		stats["warnings"] += len(r.Warnings)
 		stats["kind_"+r.Scenario.Kind]++
+		if r.Scenario.Polite {
+			stats["polite"]++
+		}
 	}
 	sj, _ := json.Marshal(stats)
 	fmt.Println(string(sj))
